@@ -24,7 +24,10 @@ def lifespan_scenarios(rng, n, starve=True):
                 op['chunk_size'] = rng.choice([1, 1, 2, 3])
                 op.pop('n_splits', None)
         if starve and sc['pool']['start_method'] == 'fork' and rng.random() < .6:
-            sc['rules'] = [{'role': 'unexpected_death_handler', 'op': 'array.get', 'obj': 'workers_dead', 'k': rng.choice([20, 60, 120]), 'p': .5}]
+            # the death watch is held up between its reads: before it reads a worker's flag, or between reading the flag and asking
+            # the process object whether it is alive (a whole restart of that slot fits in between)
+            sc['rules'] = [rng.choice([{'role': 'unexpected_death_handler', 'op': 'array.get', 'obj': 'workers_dead', 'k': rng.choice([20, 60, 120]), 'p': .5},
+                                       {'role': 'unexpected_death_handler', 'op': 'is_alive', 'obj': None, 'sleep': rng.choice([0.03, 0.12]), 'p': .6}])]
         elif starve and rng.random() < .5:
             # the thread that restarts workers is held up right when it starts the replacement: the new instance runs (and the death
             # watch looks at the slot) before the restart is finished
